@@ -153,16 +153,21 @@ impl AofEngine {
             return Ok(());
         }
         
+        // A frame whose flush fails stays in the write buffer and reaches the file with the next
+        // successful flush, so a failure of the SELECT marker must not drop the command itself
         let mut logged_db = self.logged_db.lock().unwrap();
-        if *logged_db != Some(db) {
+        let select_result = if *logged_db != Some(db) {
+            *logged_db = Some(db);
             self.append_command(&[
                 RespFrame::from_string("SELECT"),
                 RespFrame::from_string(db.to_string()),
-            ])?;
-            *logged_db = Some(db);
-        }
+            ])
+        } else {
+            Ok(())
+        };
         
-        self.append_command(command)
+        let command_result = self.append_command(command);
+        select_result.and(command_result)
     }
     
     /// Append a command to the AOF
